@@ -79,6 +79,28 @@ def r1_export(run, F):
         el = [hirq.short(p) for p, _ in hirq.constructs(n["else"])]
         if cc and fl == ["Public"] and any(x.endswith("Some") for x in t) and any(x.endswith("None") for x in el) and not any(x.endswith("Some") for x in el):
             ok = True
+    if not ok:
+        # combinator form: `flags.remove(Public).then_some(flags)` (possibly through a local holding the bool)
+        from rules import origins
+        defs = origins.definitions(e["hir"], e.get("params", ()))
+        for n in walk(e["hir"]):
+            if n.get("k") == "MethodCall" and n.get("name") in ("then_some", "then"):
+                chain = [n["recv"]]
+                seen_l = set()
+                negated = False
+                removes = []
+                while chain:
+                    x = chain.pop()
+                    for y in walk(x):
+                        if y.get("k") == "Unary" and y.get("op") == "Not":
+                            negated = True
+                        if y.get("k") in ("MethodCall", "Call") and (hirq.callee(y) or "").endswith("EnumSet::remove"):
+                            removes.append(y)
+                        if y.get("k") == "Path" and y.get("rk") == "Local" and y.get("lid") not in seen_l:
+                            seen_l.add(y.get("lid"))
+                            chain.extend(src for src, _ in defs.get(y.get("lid"), []) if src is not None)
+                if removes and not negated and all(c03.flags_in(r) == ["Public"] for r in removes):
+                    ok = True
     run.ob("R1-EXTRACT-PUBLIC", "extract_public", ok, F.where(e),
            "extract_public returns Some(flags without Public) exactly when Public was present, None otherwise")
 
